@@ -132,8 +132,18 @@ def frame_part(res):
                            'is then reported as not covered); callee effects are those of the callee contracts (pure, or `modifies` on builder fields)')
 
 
+def detach_part(res):
+    """Tier E: the output differ (the one place where the differ edits its arguments) puts back what it detaches, on every returning path"""
+    from contracts import kit_e
+    failed = []
+    for job in kit_e.C13_JOBS:
+        failed += common.prove_paths(res, job[0], job[1], job[2], default_raises=job[3]) or []
+    return failed
+
+
 def run(res):
     frame_part(res)
+    detach_failed = detach_part(res)
     diffcommon.run_diff_cases(res, {'C01', 'C13'}, 'C13', {}, quick=(24, 60), thorough=(96, 200))
     mergecommon.run_merge_cases(res, {'C03', 'C09', 'C13'}, 'C13', {}, quick=(48, 60, 12), thorough=(128, 100, 100))
     seen = set()
@@ -153,6 +163,10 @@ def run(res):
                 continue
             seen.add(kind)
             res.violation(detail, dict(where, replay_kind='call', module='checks.c13', function='replay_alias', args=[where]))
+    # failed path obligations are reported with the bounded part's witness when it found one
+    witness = next((v['what'][:300] for v in res.violations if 'mutated' in v.get('what', '') or 'modified' in v.get('what', '')), None)
+    common.report_path_failures(res, detach_failed, witness)
+    res.assumptions.append('detach part: copy.deepcopy, the generic differ and the mime-bundle differ do not write to their arguments (the differs are covered by the frame part / the bounded snapshots)')
     res.assumptions.append('bounded: deep JSON snapshot of every argument before/after each public call over the stated small scope')
     res.coverage['rule'] += ' Every public call (diff_notebooks, patch_notebook, merge_notebooks, apply_decisions, pretty_print_*) is wrapped in a before/after canonical-JSON snapshot of all arguments; rendering also gets valid diffs with mapping entries in shuffled order; diff and merge are also called with the SAME object in two roles (nb vs nb; base twice; one side twice).'
 
